@@ -132,6 +132,15 @@ EXPORT errno_t _strremovews_s_chk(char *dest, rsize_t dmax,
     }
 
     /*
+     * only whitespace: nothing stops the backward scan below
+     */
+    if (unlikely(*dest == '\0')) {
+        while (dest != orig_dest) {
+            *--dest = '\0';
+        }
+        return (EOK);
+    }
+    /*
      * shift the text over the leading spaces
      */
     if (orig_dest != dest && *dest) {
